@@ -301,12 +301,20 @@ func (m *Manager) GetStats() (*QoSStats, error) {
 	}
 
 	var key uint32 = 0
-	var stats QoSStats
 
-	// Note: This is a per-CPU map, need to aggregate
-	// For simplicity, just get first CPU's stats
-	if err := m.qosStatsMap.Lookup(&key, &stats); err != nil {
+	// qos_stats_map is a per-CPU array: a lookup returns one value per possible
+	// CPU, which have to be added up.
+	var perCPU []QoSStats
+	if err := m.qosStatsMap.Lookup(&key, &perCPU); err != nil {
 		return nil, err
+	}
+
+	var stats QoSStats
+	for i := range perCPU {
+		stats.PacketsPassed += perCPU[i].PacketsPassed
+		stats.PacketsDropped += perCPU[i].PacketsDropped
+		stats.BytesPassed += perCPU[i].BytesPassed
+		stats.BytesDropped += perCPU[i].BytesDropped
 	}
 
 	return &stats, nil
